@@ -4,7 +4,8 @@
     (NewFuture - which arms the timer -, appendFuture, the Closed() re-check + conditional removeFuture, the send
     of the request), future.Future (close = CAS(closed); assign err/message; close(done) + timer.Stop; closer() =
     removeFuture; Lock(mu), take forwarders, Unlock; one Tell per forwarder - PipeTo = Lock(mu); Load(closed);
-    closed: Unlock, wait done, read result, Tell each / open: append + Unique, Unlock - Result/Wait) and the
+    closed: Unlock, wait done, read result, Tell each / open: read forwarders, then write forwarders (append +
+    Unique), Unlock - Result/Wait) and the
     future table of System (path -> identity finite map, findMailbox, removeFuturesByAgentPath).
     One step = what one goroutine does between two scheduling points of the instrumented real code.
     Threads: the asker ([ask]), the timer goroutine, and ANY population ([prog]) of repliers (to the future's own
@@ -19,7 +20,8 @@
     The model is tied to the real code by lock-step replay (bin/check C04).
     Statements only; proofs in Future/FutInv*.v, Future/FutProofs.v, Future/FutFwd.v; notions in Future/FutSpec.v. *)
 From Coq Require Import List NArith Bool.
-From Vivid Require Import Future.FutModel Future.FutSpec Future.FutInvDef Future.FutInv Future.FutProofs Future.FutFwd.
+From Vivid Require Import Future.FutModel Future.FutSpec Future.FutInvDef Future.FutInv Future.FutProofs Future.FutFwd
+  Future.FutRun Future.FutRunProofs.
 Import ListNotations.
 Local Open Scope N_scope.
 
@@ -117,7 +119,7 @@ Proof. exact (forwarders_once timeout progs s). Qed.
 
 (** nobody else is ever told a PipeResult *)
 Theorem C04_forwarders_only_named timeout progs s x :
-  NoDup (all_fwds progs) -> reach timeout progs s -> told x s <> [] -> In x (all_fwds progs).
+  forallb prog_ok progs = true -> NoDup (all_fwds progs) -> reach timeout progs s -> told x s <> [] -> In x (all_fwds progs).
 Proof. exact (told_only_named timeout progs s x). Qed.
 
 (** at any moment, every PipeResult already told carries the value of the winning close (= the final result) *)
@@ -144,6 +146,15 @@ Theorem C04_reply_routing_value timeout progs s m :
   forallb prog_ok progs = true -> reach timeout progs s -> msg s = Some m -> In (PReply fpath (VMsg m)) progs.
 Proof. exact (reply_value_addressed timeout progs s m). Qed.
 
+(** ============================ the tie ============================ *)
+
+(** the lock-step replay that bin/check compares with the real code executes nothing but model actions (thread
+    steps, and Ticks in front of a timer fire): every replayed trace ends in a [reach]able state, so all theorems
+    above apply to every trace the correspondence check accepts *)
+Theorem C04_replay_reachable timeout progs sched :
+  reach timeout progs (snd (replay sched (init timeout progs))).
+Proof. exact (replay_reach timeout progs sched). Qed.
+
 (** ============================ non-vacuity ============================ *)
 
 Definition R (l : list nat) : list act := map Run l.
@@ -152,14 +163,14 @@ Definition R (l : list nat) : list act := map Run l.
     the timer is stopped: terminal, completed with (7, nil), both forwarders told exactly (7, nil), unregistered *)
 Definition ex1_progs : list prog := [PReply 0 (VMsg 7); PPipe [1]; PPipe [2]; PWait true; PDeath].
 Definition ex1_sched : list act :=
-  R [0;0;0;0; 2;2;2;2; 1;1;1;1; 3;3;3;3; 1;1; 3; 1;1;1; 3; 4;4;4; 5;5; 6]%nat ++ [Tick;Tick;Tick;Tick;Tick] ++ R [6]%nat.
+  R [0;0;0;0; 2;2;2;2;2; 1;1;1;1; 3;3;3;3; 1;1; 3; 1;1;1; 3; 4;4;4; 5;5; 6]%nat ++ [Tick;Tick;Tick;Tick;Tick] ++ R [6]%nat.
 Definition ex1 : st := run ex1_sched (init 5 ex1_progs).
 Example C04_ex_completed_by_reply :
   reach 5 ex1_progs ex1 /\ forallb prog_ok ex1_progs = true /\ NoDup (all_fwds ex1_progs) /\ terminal ex1 /\
   done ex1 = true /\ res_of ex1 = (Some 7, None) /\ told 1 ex1 = [(Some 7, None)] /\ told 2 ex1 = [(Some 7, None)] /\
   rets ex1 = [(4%nat, true, (Some 7, None))] /\ reg ex1 = [] /\ attempts ex1 = [1%nat] /\ winners ex1 = [1%nat].
 Proof.
-  split; [exists ex1_sched; reflexivity|]. split; [reflexivity|].
+  split; [exists ex1_sched; unfold ex1; reflexivity|]. split; [reflexivity|].
   split; [apply (NoDup_count_occ' N.eq_dec); intros x [<-|[<-|[]]]; reflexivity|].
   split; [apply quiet_terminal; vm_compute; reflexivity|]. vm_compute. repeat split.
 Qed.
@@ -172,7 +183,7 @@ Example C04_ex_timeout_before_registration :
   reachable ex2 /\ terminal ex2 /\ done ex2 = true /\ res_of ex2 = (None, Some E_TIMEOUT) /\
   fired ex2 = Some 1 /\ armed ex2 = Some 0 /\ tmo ex2 = 1 /\ reg ex2 = [] /\ rets ex2 = [(1%nat, false, (None, Some E_TIMEOUT))].
 Proof.
-  split; [exists 1, [PWait false]; split; [reflexivity|exists ex2_sched; reflexivity]|].
+  split; [exists 1, [PWait false]; split; [reflexivity|exists ex2_sched; unfold ex2; reflexivity]|].
   split; [apply quiet_terminal; vm_compute; reflexivity|]. vm_compute. repeat split.
 Qed.
 
@@ -185,7 +196,7 @@ Example C04_ex_blocked_waiter :
   reach 0 ex3_progs ex3 /\ forallb prog_ok ex3_progs = true /\ terminal ex3 /\ done ex3 = false /\
   nth_error (thr ex3) 1 = Some (WRecv true) /\ routed ex3 = [(3, VMsg 9, Some 5)] /\ rlookup fpath (reg ex3) = Some fid.
 Proof.
-  split; [exists ex3_sched; reflexivity|]. split; [reflexivity|].
+  split; [exists ex3_sched; unfold ex3; reflexivity|]. split; [reflexivity|].
   split; [apply quiet_terminal; vm_compute; reflexivity|]. vm_compute. repeat split.
 Qed.
 
@@ -198,7 +209,7 @@ Example C04_ex_window :
   nth_error (thr ex4) 1 = Some (CAssign (VMsg 7)) /\ nth_error (thr ex4) 2 = Some (PWaitDone [1]) /\
   told 1 (run (R [1;1;2;2;1;1]%nat) ex4) = [(Some 7, None)].
 Proof.
-  split; [exists 0, [PReply 0 (VMsg 7); PPipe [1]]; split; [reflexivity|exists ex4_sched; reflexivity]|].
+  split; [exists 0, [PReply 0 (VMsg 7); PPipe [1]]; split; [reflexivity|exists ex4_sched; unfold ex4; reflexivity]|].
   vm_compute. repeat split.
 Qed.
 
@@ -222,3 +233,4 @@ Print Assumptions C04_forwarded_value.
 Print Assumptions C04_reply_routing_registry.
 Print Assumptions C04_reply_routing_log.
 Print Assumptions C04_reply_routing_value.
+Print Assumptions C04_replay_reachable.
